@@ -59,6 +59,14 @@ RULE = ("faults: scenario = functional {rootfinder, equilibrium, minimize, solve
         "(thorough 24) push/pop/evaluate/raise-and-unwind steps over useobjparams, uselinopparams, enable_debug, disable_debug, followed by one "
         "identical substitution of both kinds; targets: EditableModule (plain, aliased, containers, held nn.Module, sibling, em_map = arbitrary "
         "surjection of 1..7 names onto 1..4 tensors), nn.Module (plain, tied) and a user LinearOperator (plain, aliased, map, comp as above). "
+        "faults_dbgflag / faults_dtypes: the same scenario strategy and enumeration restricted to two thin corners (operator functional with the "
+        "debug flag on as the caller's global setting and no context manager; em_mixed objects with the debug-mode parameter check active). "
+        "reassign: history forward call -> the caller puts a new tensor under one of its object's names -> backward (first / second order) for "
+        "rootfinder, equilibrium, minimize, mcquad, quad (tensor limits differentiated) and solve_ivp (five methods, both grid directions, time "
+        "points and initial state differentiated): the object keeps the caller's new tensor and all gradients equal those of the undisturbed run. "
+        "sharedmem: the object holds two DISTINCT tensor objects viewing one storage (detach / .data / view_as / full slice handle, or two "
+        "Parameters made from one storage), names listed in a drawn order: identity, flags, registration and values after forward, backward and "
+        "second backward, and results equal to those of a twin whose second tensor has its own storage. "
         "Non-trivial = scenario with N >= 1 whose objects hold at least one tensor that xitorch substitutes (object kind != pure), resp. history "
         "with >= 2 nested substitutions; distinct by canonical scenario / history." % NMAX)
 ASSUMPTIONS = [
@@ -986,12 +994,169 @@ def reassign_st(draw, tier="quick"):
     return case
 
 
+# =============================================================================================== shared storage (round 4)
+
+SHARED_HANDLES_EM = ["detach", "data", "view_as", "slice"]
+SHARED_HANDLES_NN = ["param_frozen", "param_trainable"]
+
+
+def run_sharedmem(case):
+    """The caller's object holds two DISTINCT tensor objects that view the same memory: a tensor and a detached / `.data` /
+    `view_as` / full-slice handle of it, or two Parameters made from one storage (`Parameter(w.detach())`) -- a frozen reference next
+    to the trainable tensor, an ordinary thing to write. They are two objects of the caller: after the functional call, after the
+    backward pass and after a graph-recording backward + second backward the object must hold exactly those two objects under their
+    names (identity, requires_grad, leaf-ness, Parameter type, registration order, bitwise values), and values and gradients must be
+    those of a twin object whose second tensor has its own storage (same values, same autograd relation to the first)."""
+    import xitorch
+    from xitorch.optimize import rootfinder, equilibrium, minimize
+    from xitorch.integrate import quad, solve_ivp
+    from pbt.harness import xt_call
+    torch.manual_seed(0)
+    DT = torch.float64
+    kind, fn, handle = case["kind"], case["functional"], case["handle"]
+    second = case["order"] == 2
+    n = 3
+    labels = ["task=sharedmem", "functional=" + fn, "kind=" + kind, "handle=" + handle, "order=%d" % case["order"]]
+
+    def build(shared):
+        g = gen.seeded(case["seed"])
+        A = 0.3 * torch.randn((n, n), generator=g, dtype=DT)
+        b = torch.randn((n,), generator=g, dtype=DT)
+        if kind == "nn":
+            class Mod(torch.nn.Module):
+                def __init__(self):
+                    super().__init__()
+                    self.A = torch.nn.Parameter(A.clone())
+                    src = self.A.detach() if shared else self.A.detach().clone()
+                    self.A0 = torch.nn.Parameter(src, requires_grad=(handle == "param_trainable"))
+                    self.b = torch.nn.Parameter(b.clone())
+
+                def forward(self, *a):
+                    return self.evaluate(*a)
+        else:
+            class Mod(xitorch.EditableModule):
+                def __init__(self):
+                    self.A = A.clone().requires_grad_()
+                    if handle == "detach":
+                        self.A0 = self.A.detach() if shared else self.A.detach().clone()
+                    elif handle == "data":
+                        self.A0 = self.A.data if shared else self.A.data.clone()
+                    elif handle == "view_as":
+                        self.A0 = self.A.view_as(self.A) if shared else self.A.clone()
+                    else:
+                        self.A0 = self.A[:] if shared else self.A.clone()
+                    self.b = b.clone().requires_grad_()
+
+                def getparamnames(self, methodname, prefix=""):
+                    return [prefix + nm for nm in case["order_names"]]
+
+        def evaluate(self, *a):
+            c = 0.1 * (self.A0 * self.A0).sum()
+            if fn == "rootfinder":
+                return a[0] + 0.5 * torch.tanh(self.A @ a[0]) + c * a[0] - self.b
+            if fn == "equilibrium":
+                return 0.5 * torch.tanh(self.A @ a[0]) * (1 - c) + self.b
+            if fn == "minimize":
+                return 0.5 * (1 + c) * (a[0] * a[0]).sum() + 0.5 * torch.log(torch.cosh(self.A @ a[0])).sum() - (self.b * a[0]).sum()
+            if fn == "quad":
+                return torch.sin(self.A.reshape(-1)[:n] * a[0] + self.b) * (1 + c)
+            return -(1.0 + c + self.A.diagonal() ** 2) * a[1] + self.b * torch.cos(a[0])      # solve_ivp: f(t, y)
+        Mod.evaluate = evaluate
+        return Mod(), g
+
+    def call(obj_fcn):
+        y0 = torch.zeros((n,), dtype=DT)
+        if fn == "rootfinder":
+            return rootfinder(obj_fcn, y0, method="broyden1", f_tol=1e-12)
+        if fn == "equilibrium":
+            return equilibrium(obj_fcn, y0, method="broyden1", f_tol=1e-12)
+        if fn == "minimize":
+            return minimize(obj_fcn, y0, method="broyden1", f_tol=1e-12)
+        if fn == "quad":
+            return quad(obj_fcn, 0.0, 1.0, n=6)
+        return solve_ivp(obj_fcn, torch.linspace(0, 1, 4, dtype=DT), torch.ones((n,), dtype=DT), method="rk4")
+
+    def snapshot(m):
+        snap = []
+        for nm in ("A", "A0", "b"):
+            t = getattr(m, nm)
+            snap.append((nm, id(t), t.requires_grad, t.is_leaf, isinstance(t, torch.nn.Parameter), t.detach().clone()))
+        names = [k for k, _ in m.named_parameters()] if kind == "nn" else None
+        return snap, names, m.A0.data_ptr() == m.A.data_ptr()
+
+    def compare(m, before, where):
+        snap, names, shares = snapshot(m)
+        for (nm, i0, r0, l0, p0, v0), (_, i1, r1, l1, p1, v1) in zip(before[0], snap):
+            if i0 != i1:
+                other = [k for k in ("A", "A0", "b") if k != nm and id(getattr(m, k)) == i1]
+                return violation("shared_storage:identity:" + where, "%s: the object holds another tensor object under %r than before%s"
+                                 % (where, nm, " (now the object it holds under %r)" % other[0] if other else ""), labels)
+            if (r0, l0, p0) != (r1, l1, p1):
+                return violation("shared_storage:flags:" + where, "%s: requires_grad/is_leaf/Parameter of %r changed %r -> %r"
+                                 % (where, nm, (r0, l0, p0), (r1, l1, p1)), labels)
+            if not torch.equal(v0, v1):
+                return violation("shared_storage:value:" + where, "%s: the values of %r changed" % (where, nm), labels)
+        if names != before[1]:
+            return violation("shared_storage:registration:" + where, "%s: parameter registration %r -> %r" % (where, before[1], names), labels)
+        return None
+
+    def diff_inputs(m):
+        xs = [m.A, m.b]
+        if m.A0.is_leaf and m.A0.requires_grad:
+            xs.append(m.A0)
+        return xs
+
+    res = {}
+    for shared in (False, True):
+        m, g = build(shared)
+        fcn = m.evaluate if kind == "em" else m.forward
+        before = snapshot(m)
+        if shared and not before[2]:
+            raise RuntimeError("harness: the handle does not share the storage")
+        y = xt_call(call, fcn, _where="forward")
+        v = compare(m, before, "after_forward") if shared else None
+        if v is not None:
+            return v
+        W = torch.randn(y.shape, generator=g, dtype=DT)
+        xs = diff_inputs(m)
+        gs = xt_call(torch.autograd.grad, (y * W).sum(), xs, create_graph=second, allow_unused=True, _where="backward")
+        v = compare(m, before, "after_backward") if shared else None
+        if v is not None:
+            return v
+        out = [y.detach()] + [None if gi is None else gi.detach().clone() for gi in gs]
+        if second:
+            terms = [(gi * gi).sum() for gi in gs if gi is not None and gi.requires_grad]
+            if terms:
+                g2 = xt_call(torch.autograd.grad, sum(terms), xs, allow_unused=True, _where="backward2")
+                out += [None if gi is None else gi.detach().clone() for gi in g2]
+                v = compare(m, before, "after_second_backward") if shared else None
+                if v is not None:
+                    return v
+        res[shared] = out
+    for k, (a, r_) in enumerate(zip(res[True], res[False])):
+        if (a is None) != (r_ is None) or (a is not None and float((a - r_).abs().max()) > 1e-9 * (1 + float(r_.abs().max()))):
+            return violation("shared_storage:result", "output/gradient #%d differs from the twin object whose second tensor has its own storage: %s vs %s"
+                             % (k, None if a is None else a.reshape(-1)[:3].tolist(), None if r_ is None else r_.reshape(-1)[:3].tolist()), labels)
+    return ok(labels, nontrivial=True)
+
+
+@st.composite
+def sharedmem_st(draw, tier="quick"):
+    kind = draw(st.sampled_from(["em", "em", "nn"]))
+    case = {"functional": draw(st.sampled_from(["rootfinder", "equilibrium", "minimize", "quad", "solve_ivp"])), "kind": kind,
+            "handle": draw(st.sampled_from(SHARED_HANDLES_EM if kind == "em" else SHARED_HANDLES_NN)),
+            "order": draw(st.sampled_from([1, 1, 2])), "seed": draw(st.integers(0, 2 ** 31 - 1)),
+            "order_names": draw(st.permutations(["A", "A0", "b"]))}
+    return case
+
+
 def tasks(tier):
     return [
         # round 3: the new kinds (8 of 29 function kinds, 3 of 7 operator kinds, 2 of 8 nesting targets) come on top of the former
         # numbers of examples of the other kinds (520 / 2000)
         Task("nesting", machine=machine, run=run_nesting, examples={"quick": 2600, "thorough": 16000},
              steps={"quick": 14, "thorough": 24}),
+        Task("sharedmem", strategy=sharedmem_st(tier), run=run_sharedmem, examples={"quick": 120, "thorough": 1200}),
         Task("reassign", strategy=reassign_st(tier), run=run_reassign, examples={"quick": 160, "thorough": 1500}),
         # the expensive task last: under a wall budget cut short (loaded machine) the cheap tasks have run
         # round 4: two thin corners of the scenario space as small tasks of their own (see scenario_st), taken out of the budget of `faults`
